@@ -207,4 +207,96 @@ theorem toBoc_conforms (root : PCell) (fuel : Nat) (ord : List PCell) (o : Opts)
   · rw [hs]
     simp [orderRecs, cellSRec, cell_toSRec, Function.comp_def]
 
+/-! ### cells built from trees -/
+
+theorem toBytesBE_one_lt (x : Nat) (bs : Bytes) (h : toBytesBE? 1 x = some bs) : x < 256 := by
+  unfold toBytesBE? at h
+  split at h
+  · simpa using ‹x < 256 ^ 1›
+  · cases h
+
+theorem descriptors_limits (nrefs : Nat) (e : Bool) (len mask : Nat) (bs : Bytes)
+    (h : descriptors nrefs e len mask = some bs) : mask ≤ 7 ∧ len ≤ 1023 := by
+  unfold descriptors at h
+  simp only [Option.bind_eq_bind, Option.bind_eq_some_iff] at h
+  obtain ⟨d1, h1, d2, h2, _⟩ := h
+  have := toBytesBE_one_lt _ _ h1
+  have := toBytesBE_one_lt _ _ h2
+  constructor
+  · omega
+  · split at this <;> omega
+
+/-- every cell the constructor accepts is within the descriptor limits -/
+theorem construct_limits (H : Bytes → Bytes) (kind : Int) (bits : Bits) (kis : List CellInfo) (i : CellInfo)
+    (h : construct H kind bits kis = some i) :
+    i.nrefs = kis.length ∧ i.bits = bits ∧ i.kind = kind ∧ i.bits.length ≤ 1023 ∧ i.mask ≤ 7 := by
+  unfold construct at h
+  simp only [Option.bind_eq_bind, Option.bind_eq_some_iff] at h
+  obtain ⟨mask, _, st, _, d, hd, l, _, hi⟩ := h
+  cases hi
+  obtain ⟨hm, hl⟩ := descriptors_limits _ _ _ _ _ hd
+  exact ⟨rfl, rfl, rfl, hl, hm⟩
+
+mutual
+  /-- input domain of the format: at most 4 references; an exotic cell's data starts with (at least) its type byte -/
+  def Shape : Cell → Prop
+    | .mk kind bits refs => refs.length ≤ 4 ∧ (kind ≠ kOrdinary → 8 ≤ bits.length) ∧ Shapes refs
+  def Shapes : List Cell → Prop
+    | [] => True
+    | c :: cs => Shape c ∧ Shapes cs
+end
+
+mutual
+  theorem build_ok (H : Bytes → Bytes) : ∀ (t : Cell) (p : PCell), Shape t → Cell.build H t = some p →
+      ∀ c ∈ subcells p, CellOK c
+    | .mk kind bits refs, p, sh, hb => by
+      rw [Shape] at sh
+      rw [Cell.build] at hb
+      simp only [Option.bind_eq_bind, Option.bind_eq_some_iff] at hb
+      obtain ⟨rs, hrs, i, hi, hp⟩ := hb
+      cases hp
+      obtain ⟨h1, h2, h3, h4, h5⟩ := construct_limits H kind bits _ i hi
+      have hlen := builds_length H refs rs hrs
+      intro c hc
+      rw [subcells] at hc
+      rcases List.mem_cons.1 hc with rfl | hc
+      · refine ⟨by simpa [PCell.info, PCell.refs] using h1, by simp [PCell.refs]; omega, h4, h5, ?_⟩
+        intro hk
+        simp only [PCell.info] at hk ⊢
+        rw [h2]; rw [h3] at hk
+        exact sh.2.1 hk
+      · exact builds_ok H refs rs sh.2.2 hrs c hc
+  theorem builds_ok (H : Bytes → Bytes) : ∀ (ts : List Cell) (ps : List PCell), Shapes ts → Cell.builds H ts = some ps →
+      ∀ c ∈ subcellsList ps, CellOK c
+    | [], ps, _, hb => by
+      rw [Cell.builds] at hb; cases hb
+      intro c hc; simp [subcellsList] at hc
+    | t :: ts, ps, sh, hb => by
+      rw [Shapes] at sh
+      rw [Cell.builds] at hb
+      simp only [Option.bind_eq_bind, Option.bind_eq_some_iff] at hb
+      obtain ⟨p, hp, ps', hps, hq⟩ := hb
+      cases hq
+      intro c hc
+      rw [subcellsList] at hc
+      rcases List.mem_append.1 hc with hc | hc
+      · exact build_ok H t p sh.1 hp c hc
+      · exact builds_ok H ts ps' sh.2 hps c hc
+  theorem builds_length (H : Bytes → Bytes) : ∀ (ts : List Cell) (ps : List PCell), Cell.builds H ts = some ps → ps.length = ts.length
+    | [], ps, hb => by rw [Cell.builds] at hb; cases hb; rfl
+    | t :: ts, ps, hb => by
+      rw [Cell.builds] at hb
+      simp only [Option.bind_eq_bind, Option.bind_eq_some_iff] at hb
+      obtain ⟨p, hp, ps', hps, hq⟩ := hb
+      cases hq
+      simp [builds_length H ts ps' hps]
+end
+
+/-- `to_boc` on a tree of cells (`Model.Cell`, as in C01/C02): shape hypotheses instead of `CellOK` -/
+theorem toBoc_conforms_tree (H : Bytes → Bytes) (t : Cell) (p : PCell) (sh : Shape t) (hb : Cell.build H t = some p)
+    (nc : NoCollision p) (fuel : Nat) (ord : List PCell) (h : p.order fuel = some ord) (o : Opts) (hv : o.valid = true)
+    (hn : ord.length < 2 ^ 32) (hP : (payloadOf (sizeW (orderRecs ord)) (orderRecs ord)).length * 2 < 2 ^ 64) :
+    ValidOrder p ord ∧ ∃ bs, p.toBoc fuel o = some bs ∧ strictFlat bs = some ⟨ord.map (cellSRec ord), [0]⟩ :=
+  toBoc_conforms p fuel ord o hv nc (build_ok H t p sh hb) h hn hP
+
 end TonVerif.Proofs.BocEmit
